@@ -101,6 +101,8 @@ class Gen:
 
     def guard(self, allow_none=True):
         x = self.r.random()
+        if self.natom + 4 > MAX_ATOMS:
+            return None      # every guard atom is one bit of the per-step valuation and identifies its row: never reused
         if allow_none and x < self.p['guard_none']:
             return None
         if x < self.p['guard_none'] + self.p['guard_composite']:
@@ -631,7 +633,7 @@ class Gen:
                     if st['kind'] == 'sub' or not st.get('deferred'):
                         continue
                     for e in st['deferred']:
-                        if r.random() < self.p['defer_cond']:
+                        if r.random() < self.p['defer_cond'] and self.natom < MAX_ATOMS:
                             st.setdefault('cond_defer', []).append([e, self.atom()])
             sp['features']['exclude_cfgs'] = [1, 2, 3, 4]
         if self.p.get('outer_rows_on_deferred'):
